@@ -342,3 +342,31 @@ ROUND6_DEFECTS = [
              "            if len(term.idx) == 0 and len(scalar_tensors) == 0:\n"),
 ]
 WITNESSES += ROUND6_DEFECTS
+_F54_NEW = ("        letters = einsum_subscripts(contraction)\n"
+            "        idx_str = [\"\".join(letters[idx.name] for idx in indices)\n"
+            "                   for indices in contraction.indices if indices]\n"
+            "        target = \"\".join(letters[idx.name] for idx in contraction.target)\n")
+ROUND6_F54 = [
+    # the subscripts are the concatenated full names again
+    dict(id="c17-F54-revert", prop="C17", file=G, expect="R17a", old=_F54_NEW, new=""),
+    # every numbered name gets the letter of its name: not injective (i1, i2 -> i)
+    dict(id="c17-F54-first-letter", prop="C17", file=G, expect="R17a",
+         old="        letter = next((c for c in candidates if c not in used), None)", new="        letter = name[0]"),
+    # the letters of the single-letter names are not reserved
+    dict(id="c17-F54-used-not-reserved", prop="C17", file=G, expect="R17a",
+         old="    used = set(letters.values())\n    for name, space in names.items():", new="    used = set()\n    for name, space in names.items():"),
+    # the target indices get their own map
+    dict(id="c17-F54-target-unmapped", prop="C17", file=G, expect="R17a",
+         old="        target = \"\".join(letters[idx.name] for idx in contraction.target)\n", new=""),
+    # twin: the letter pool as one string, explicit loop instead of next(); sorted first-come assignment is kept
+    dict(id="c17-F54-twin", prop="C17", file=G, expect=None,
+         edits=[("        candidates = itertools.chain(name[0], Indices.base[space],\n                                     ascii_letters)\n        letter = next((c for c in candidates if c not in used), None)\n",
+                 "        pool = name[:1] + \"\".join(Indices.base[space]) + ascii_letters\n        letter = None\n        for candidate in pool:\n            if candidate not in used:\n                letter = candidate\n                break\n"),
+                ("        letters = einsum_subscripts(contraction)\n        idx_str = [\"\".join(letters[idx.name] for idx in indices)\n                   for indices in contraction.indices if indices]\n",
+                 "        letters = einsum_subscripts(contraction)\n        idx_str = []\n        for indices in contraction.indices:\n            if len(indices) > 0:\n                idx_str.append(\"\".join([letters[idx.name] for idx in indices]))\n")]),
+    # twin: a different but injective choice of letters (from the end of the alphabet)
+    dict(id="c17-F54-twin-other-letters", prop="C17", file=G, expect=None,
+         old="        candidates = itertools.chain(name[0], Indices.base[space],\n                                     ascii_letters)",
+         new="        candidates = reversed(ascii_letters)"),
+]
+WITNESSES += ROUND6_F54
